@@ -9,6 +9,7 @@ import CookModel.Lemmas.DiagQuiet
 import CookModel.Lemmas.DiagAnalysisMore
 import CookModel.Lemmas.DiagInterRef
 import CookModel.Lemmas.DiagRefChecks
+import CookModel.Lemmas.DiagExact
 /-
   C07  Diagnostics are sound, complete and placed on the offending construct.
 
@@ -1069,5 +1070,197 @@ theorem C07_quiet_analysis (env : Env) (input : Str) (s : Col α) (hd : s.define
 /-! non-vacuity: the default collector state is in the default modes; empty modifiers have no `+`/`&` -/
 example : ({} : Col Rat).defineMode ≠ .steps ∧ ({} : Col Rat).duplicateMode = .new := ⟨by decide, rfl⟩
 example : Modifiers.empty.contains Modifiers.NEW = false ∧ Modifiers.empty.contains Modifiers.REF = false := by decide
+
+/-! ### Exact emission of two parse-stage warnings -/
+
+/-- **Note after a timer, exactly.**  `check_note` of `timer`, from EVERY parser state: it pushes
+    `timerNoteEvs s` and changes nothing else (cursor, tokens, panic flag, tables), where
+    * if the token at the cursor is `(` and a `)` follows in the block, `timerNoteEvs s` is exactly the one
+      warning `note-not-allowed:timer` (warning, parse), labelled with the span from the `(` to the first
+      `)` after it, then the position of the `(`;
+    * if the token at the cursor is not `(` (or there is none), nothing is pushed;
+    * if it is `(` but no `)` follows, nothing is pushed. -/
+theorem C07_note_not_allowed_timer (s : BP α) :
+    checkNoteTimer s = ((), pushAll (timerNoteEvs s) s) ∧
+    (∀ op cp n, s.toks[s.cur]? = some op → op.kind = .openParen →
+      (s.toks.drop (s.cur + 1)).findIdx? (fun t => t.kind == .closeParen) = some n →
+      s.toks[s.cur + 1 + n]? = some cp →
+      timerNoteEvs s = [.warning ⟨.warning, .parse, "note-not-allowed:timer",
+        [⟨op.start, cp.stop⟩, Span.pos op.start]⟩]) ∧
+    ((∀ t, s.toks[s.cur]? = some t → t.kind ≠ .openParen) → timerNoteEvs s = []) ∧
+    ((s.toks.drop (s.cur + 1)).findIdx? (fun t => t.kind == .closeParen) = none → timerNoteEvs s = []) := by
+  refine ⟨checkNoteTimer_exact s, ?_, ?_, ?_⟩
+  · intro op cp n h1 h2 h3 h4
+    unfold timerNoteEvs
+    simp only [h1, h2, if_true, h3, h4, Option.getD_some]
+    rfl
+  · intro h
+    unfold timerNoteEvs
+    cases ht : s.toks[s.cur]? with
+    | none => rfl
+    | some t => simp only [h t ht, if_false]
+  · intro h
+    unfold timerNoteEvs
+    cases ht : s.toks[s.cur]? with
+    | none => rfl
+    | some t =>
+      dsimp only
+      split
+      · rw [h]
+      · rfl
+
+/-- **… at the level of the timer.**  A timer cut into no modifier tokens, name tokens without alias
+    separator (or COMPONENT_ALIAS off) and the quantity tokens `value % unit` of `C07_quiet_quantity`,
+    followed by ANYTHING: `timer` returns the timer with its quantity and pushes EXACTLY
+    `timerNoteEvs s3` (`s3` = the state after `comp_body`): the one warning `note-not-allowed:timer` when a
+    parenthesised note follows, labelled with that note; nothing otherwise.  So `~{5%min}(x)` gets
+    exactly one warning, `~{5%min} (x)` and `~{5%min}` none. -/
+theorem C07_note_not_allowed_timer_component (s s1 s2 s3 : BP α) (body : Body) (vt ut : List Tok) (pct t0 : Tok)
+    (hq : body.quantity = some (vt ++ pct :: ut))
+    (ha : s.ext.has Gen.EXT_COMPONENT_ALIAS = false ∨ ∀ t ∈ body.name, t.kind ≠ .or)
+    (h0 : vt.head? = some t0) (hws : isWsComment t0.kind = false)
+    (heq : t0.kind ≠ .eq) (hvp : ∀ t ∈ vt, t.kind ≠ .percent) (hp : pct.kind = .percent)
+    (hval : (∃ v, numOrRange (α := α) (s.ext.has Gen.EXT_RANGE_VALUES) vt = some (.ok v)) ∨
+      (numOrRange (α := α) (s.ext.has Gen.EXT_RANGE_VALUES) vt = none ∧
+        (buildText t0.start vt).isTextEmpty s.cs = false))
+    (hunit : (buildText pct.stop ut).isTextEmpty s.cs = false)
+    (hc : Cut .tilde s [] body s1 s2 s3) :
+    (∃ q, (timerP s).1 = some (.timer
+      ⟨⟨if (buildText (curOff s2) body.name).isTextEmpty s.cs then none
+          else some (buildText (curOff s2) body.name), some q⟩, ⟨curOff s, curOff s3⟩⟩)) ∧
+    Pushed (timerNoteEvs s3) s (timerP s).2 := by
+  have q3 : Same s s3 := hc.same
+  have ht := timerTail_noted (α := α) (curOff s) (curOff s3) (curOff s2) body s3 _ hq
+    (by rw [q3.2.1]; exact ha)
+    (fun sq hcs hext => Sat.mono (parseQuantity_quiet_pct vt ut pct t0 sq h0 hws heq hvp hp
+      (by rw [hext, hcs, q3.2.1, q3.1]; exact hval) (by rw [hcs, q3.1]; exact hunit))
+      (fun r _ h => ⟨h.1, by rw [h.2]; rfl⟩))
+  unfold Sat at ht
+  rw [← timerP_cut hc, q3.1] at ht
+  exact ⟨ht.2, (q3.pushed.trans ht.1).cast (by simp)⟩
+
+/-! non-vacuity: `~{1%min}(x)`: after `comp_body` the cursor is at the `(` and a `)` follows -/
+def C07_exTimerNote : BP Rat :=
+  ⟨[⟨.tilde, ['~'], 0⟩, ⟨.openBrace, ['{'], 1⟩, ⟨.int, ['1'], 2⟩, ⟨.percent, ['%'], 3⟩,
+    ⟨.word, ['m', 'i', 'n'], 4⟩, ⟨.closeBrace, ['}'], 7⟩, ⟨.openParen, ['('], 8⟩, ⟨.word, ['x'], 9⟩,
+    ⟨.closeParen, [')'], 10⟩], 0, ⟨0⟩, toyCharSpec, #[], none⟩
+example : ∃ body s1 s2 s3, Cut .tilde C07_exTimerNote [] body s1 s2 s3 ∧
+    body.quantity = some ([⟨.int, ['1'], 2⟩] ++ ⟨.percent, ['%'], 3⟩ :: [⟨.word, ['m', 'i', 'n'], 4⟩]) ∧
+    timerNoteEvs s3 = [.warning ⟨.warning, .parse, "note-not-allowed:timer", [⟨8, 11⟩, ⟨8, 8⟩]⟩] :=
+  ⟨_, _, _, _, ⟨⟨_, rfl⟩, rfl, rfl⟩, rfl, rfl⟩
+
+/-- **Invalid single-word name, exactly.**  `comp_body`'s second attempt (the single-word form), from
+    EVERY parser state at whose cursor there is no word/number token: it returns no body, restores the
+    cursor and pushes `singleWordWarn s` and nothing else, where
+    * if a token other than whitespace is at the cursor (`@!`, `@(`, `@,` …) this is exactly the one
+      warning `invalid-single-word-name` (warning, parse) labelled with the position of the cursor
+      (the end of the marker or of the modifiers);
+    * if whitespace is there, or the block ends (`@ x`, `@`), nothing is pushed.
+    (When a word/number token is at the cursor the attempt succeeds and pushes nothing:
+    `C07_component_cut`.)  Partial: that `ingredient`/`cookware`/`timer` reach this attempt exactly
+    when the long form `name{…}` is absent is not lifted to the component here. -/
+theorem C07_invalid_single_word_name_partial (s : BP α)
+    (hns : ∀ t, s.toks[s.cur]? = some t → isShortK t.kind = false) :
+    compBodyShort s = (none, pushAll (singleWordWarn s) s) ∧
+    (∀ t, s.toks[s.cur]? = some t → t.kind ≠ .ws →
+      singleWordWarn s = [.warning ⟨.warning, .parse, "invalid-single-word-name", [Span.pos (curOff s)]⟩]) ∧
+    ((∀ t, s.toks[s.cur]? = some t → t.kind = .ws) → singleWordWarn s = []) := by
+  refine ⟨compBodyShort_exact s hns, ?_, ?_⟩
+  · intro t ht hk
+    unfold singleWordWarn curOff
+    simp only [ht, hk, if_false]
+  · intro h
+    unfold singleWordWarn
+    cases ht : s.toks[s.cur]? with
+    | none => rfl
+    | some t => simp only [h t ht, if_true]
+
+/-! non-vacuity: `@!` with the cursor after the `@` -/
+example : let s : BP Rat := ⟨[⟨.at, ['@'], 0⟩, ⟨.punct, ['!'], 1⟩], 1, ⟨0⟩, toyCharSpec, #[], none⟩
+    (∀ t, s.toks[s.cur]? = some t → isShortK t.kind = false) ∧
+    singleWordWarn s = [.warning ⟨.warning, .parse, "invalid-single-word-name", [⟨1, 1⟩]⟩] := by
+  refine ⟨?_, rfl⟩
+  intro t ht
+  simp only [List.getElem?_cons_succ, List.getElem?_cons_zero, Option.some.injEq] at ht
+  subst ht; rfl
+
+/-! ### Soundness on whole recipes
+
+  The C01 round-trip theorems already compute the full result of the analysis / of `parse` for a class
+  of well-formed recipes, and that result has an EMPTY diagnostics array.  Stated here as what C07
+  asks: no error, no warning, the result is valid. -/
+
+/-- **A well-formed simple recipe is quiet (analysis pass).**  For the event list of a `SimpleRecipe`
+    (steps of text, ingredient, cookware and timer events; every component a plain definition: no
+    `&`, no `+`, no intermediate reference, `=` only on a numeric ingredient amount; no step empty),
+    with ADVANCED_UNITS and INLINE_QUANTITIES off and every other extension arbitrary,
+    `parse_events` reports NO diagnostic (no error, no warning — not even the `>>` deprecation
+    notice, there is no `>>` line), has output, is valid, and no panic site is reached. -/
+theorem C07_sound_simple_events (env : Env) (input : Str)
+    (hadv : env.ext.has Gen.EXT_ADVANCED_UNITS = false) (hinl : env.ext.has Gen.EXT_INLINE_QUANTITIES = false)
+    (r : SimpleRecipe α) (hs : ∀ st ∈ r.steps, ∀ it ∈ st, it.Simple) (hne : ∀ st ∈ r.steps, st ≠ []) :
+    (parseEvents env input r.events).diags = #[] ∧ (parseEvents env input r.events).isValid = true ∧
+    (parseEvents env input r.events).panic = none := by
+  rw [rta_parseEvents_simple env input hadv hinl r hs hne]
+  exact ⟨rfl, rfl, rfl⟩
+
+/-- **A well-formed recipe made of steps is quiet, from the characters on.**  For every document of
+    steps accepted by `C01_recipe_steps` (text runs over several lines, ingredients and cookware in
+    brace or single-word form with modifiers `@ - ?`, aliases, notes, quantities with units, timers;
+    every component a plain definition; the syntactic side conditions of the printer), with
+    ADVANCED_UNITS and INLINE_QUANTITIES off, `CooklangParser::parse` on the printed text reports NO
+    diagnostic, has output, is valid, and reaches no panic site. -/
+theorem C07_sound_recipe_steps (env : Env) (pre : List Tok) (doc : List (List SegX × List Tok))
+    (hadv : env.ext.has Gen.EXT_ADVANCED_UNITS = false) (hinl : env.ext.has Gen.EXT_INLINE_QUANTITIES = false)
+    (hpre : blankLinesOK pre = true) (hok : ∀ d ∈ doc, (DocItem.step d.1).ok env.cs env.ext = true)
+    (hsimple : ∀ d ∈ doc, d.1.all SegX.simple = true) (hseps : sepsOK (doc.map (·.2)) = true)
+    (hw : WellSpelled env.cs (pre ++ docSpec (stepsDoc doc)))
+    (hfm : parseFrontmatter env.cs (render (pre ++ docSpec (stepsDoc doc))) = none) :
+    (parseRecipe (α := α) env (render (pre ++ docSpec (stepsDoc doc)))).diags = #[] ∧
+    (parseRecipe (α := α) env (render (pre ++ docSpec (stepsDoc doc)))).isValid = true ∧
+    (parseRecipe (α := α) env (render (pre ++ docSpec (stepsDoc doc)))).panic = none := by
+  obtain ⟨r, h1, -⟩ := rtr_parseRecipe_steps (α := α) env pre doc hadv hinl hpre hok hsimple hseps hw hfm
+  rw [h1]
+  exact ⟨rfl, rfl, rfl⟩
+
+/-- **… under EVERY extension set**, for core-syntax recipes (partial: the composition with C02 is a
+    hypothesis).  If the result of `parse` on the printed text does not depend on the extension set —
+    `hirr`, which is exactly the conclusion of `C02_parse_ext_irrelevant` (Props/C02.lean) for inputs
+    all of whose blocks satisfy `UsesNone` and whose events satisfy `evConvCore` — then under ALL
+    raw extension patterns `e`, ADVANCED_UNITS and INLINE_QUANTITIES included, `parse` reports no
+    diagnostic, is valid and does not panic.  (`env` is the environment the document was checked
+    against, with the two flags off.)
+    Missing: discharging `hirr` here; Props/C02's lemma files (Lemmas/ExtLaws) and this file's
+    (Lemmas/RoundtripComp) cannot be imported together because both declare `withRecover_run`. -/
+theorem C07_sound_recipe_steps_all_extensions_partial (env : Env)
+    (pre : List Tok) (doc : List (List SegX × List Tok))
+    (hadv : env.ext.has Gen.EXT_ADVANCED_UNITS = false) (hinl : env.ext.has Gen.EXT_INLINE_QUANTITIES = false)
+    (hpre : blankLinesOK pre = true) (hok : ∀ d ∈ doc, (DocItem.step d.1).ok env.cs env.ext = true)
+    (hsimple : ∀ d ∈ doc, d.1.all SegX.simple = true) (hseps : sepsOK (doc.map (·.2)) = true)
+    (hw : WellSpelled env.cs (pre ++ docSpec (stepsDoc doc)))
+    (hfm : parseFrontmatter env.cs (render (pre ++ docSpec (stepsDoc doc))) = none)
+    (hirr : ∀ e : Ext, parseRecipe (α := α) { env with ext := e } (render (pre ++ docSpec (stepsDoc doc))) =
+      parseRecipe env (render (pre ++ docSpec (stepsDoc doc)))) (e : Ext) :
+    (parseRecipe (α := α) { env with ext := e } (render (pre ++ docSpec (stepsDoc doc)))).diags = #[] ∧
+    (parseRecipe (α := α) { env with ext := e } (render (pre ++ docSpec (stepsDoc doc)))).isValid = true ∧
+    (parseRecipe (α := α) { env with ext := e } (render (pre ++ docSpec (stepsDoc doc)))).panic = none := by
+  rw [hirr e]
+  exact C07_sound_recipe_steps env pre doc hadv hinl hpre hok hsimple hseps hw hfm
+
+/-! non-vacuity: the example recipe of C01 (`Add @salt{=1%tsp} to the #pot{}` / `~{10%min} wait`) and the
+    example document of `C01_recipe_steps` satisfy the hypotheses (shown in Props/C01.lean); the
+    validity of the result -/
+example : (parseEvents C01_toyEnv [] C01_exSimple.events).isValid = true := by
+  refine (C07_sound_simple_events C01_toyEnv [] (by decide) (by decide) C01_exSimple ?_ ?_).2.1
+  · have h1 : IngrSimple C01_exSalt1 := ⟨rfl, by decide, by intro q hq; cases hq; intro _; exact ⟨rfl, rfl⟩⟩
+    have h2 : CwSimple C01_exPot1 := ⟨by decide, by intro q hq; cases hq⟩
+    have h3 : TimerSimple C01_exTimer1 := ⟨by intro q hq; cases hq; intro h; cases h⟩
+    intro st hst it hit
+    simp only [C01_exSimple, List.mem_cons, List.not_mem_nil, or_false] at hst
+    rcases hst with rfl | rfl <;> simp only [List.mem_cons, List.not_mem_nil, or_false] at hit <;>
+      rcases hit with rfl | rfl | rfl | rfl <;> first | trivial | exact h1 | exact h2 | exact h3
+  · intro st hst
+    simp only [C01_exSimple, List.mem_cons, List.not_mem_nil, or_false] at hst
+    rcases hst with rfl | rfl <;> simp
 
 end Cook
